@@ -255,6 +255,12 @@ Proof.
   - (* Tok *)
     inversion W; subst b'. simpl. eexists. split; [reflexivity|]. split; [|reflexivity].
     apply (ext_BInv b s); [|repeat split; auto]. exists [Tother k]. simpl. auto.
+  - (* ExtState *)
+    inversion W; subst b'. simpl. eexists. split; [reflexivity|]. split; [|reflexivity].
+    apply (ext_BInv b s); [|repeat split; auto]. exists []. simpl. auto.
+  - (* ExtAlpha *)
+    inversion W; subst b'. simpl. eexists. split; [reflexivity|]. split; [|reflexivity].
+    apply (ext_BInv b s); [|repeat split; auto]. exists []. simpl. auto.
 Qed.
 
 Lemma run_BInv ops : forall b b' s,
